@@ -365,6 +365,48 @@ func init() {
 		sc.Cfg.Horizon = 60 * time.Second
 		return sc
 	}
+	// closeblock: after the handshake the transport's send function stops
+	// accepting anything (it blocks until the context it was given ends),
+	// so the send goroutine sits inside sendToStream; Close injected at
+	// any point of that. Close has the FIN timeout to give up on the FIN.
+	builders["closeblock"] = func(name string, p params) *Scenario {
+		sc := &Scenario{}
+		common(sc, p)
+		sc.Faults = FaultCfg{}
+		n := int(sc.N)
+		sc.ClientScripts = [][]Op{sends('c', n+1, -1)}
+		sc.ServerScripts = [][]Op{sends('s', 1, -1), recvs(n + 2)}
+		sc.ExtraActions = closeActions(p.int("closers", 1))
+		side := "both"
+		if v, ok := p["side"]; ok {
+			side = v
+		}
+		sc.PreActions = func(w *World) {
+			if w.handshakeDone() && !w.blackholed {
+				for _, l := range []*Link{w.c2s, w.s2c} {
+					if side == "both" || (side == "c" && l == w.c2s) || (side == "s" && l == w.s2c) {
+						l.mu.Lock()
+						l.stall = true
+						l.mu.Unlock()
+					}
+				}
+				w.blackholed = true
+				w.reached["transport-send-blocks"] = true
+			}
+		}
+		until := p.dur("until", 4*time.Second)
+		sc.Goal = func(w *World) bool {
+			if w.closersUsed > 0 {
+				last, _ := w.extra["lastCloser"].(time.Duration)
+				return w.s.Now() >= last+8*time.Second
+			}
+			return w.s.Now() >= until
+		}
+		sc.Final = append(sc.Final, finalClose)
+		sc.Owns = map[string]bool{"panic": true, "leak": true}
+		sc.Cfg.Horizon = 60 * time.Second
+		return sc
+	}
 }
 
 // ---------------------------------------------------------------- C09: window
